@@ -94,6 +94,10 @@ def scenarios():
     # a complete session: both sides open, talk, close
     S["open-talk-close"] = {"alice": [("open", "s", "bob", 0, False), ("recv", "s"), ("close", "s")],
                             "bob": [("open", "s", "alice", 0, False), ("send", "s", "b1"), ("close", "s")]}
+    # sockets that log their communication; messages that end in / consist of the marker the log trims ("EOF")
+    S["logged-sockets-eof-messages"] = {"alice": [("open_log", "s", "bob", 0, False), ("send", "s", "0110EOF"), ("send", "s", "EOF"), ("send", "s", "a3")],
+                                        "bob": [("open_log", "s", "alice", 0, False), ("recv", "s"), ("recv", "s"), ("recv", "s"), ("recv_nb", "s"),
+                                                ("recv_nb", "s")]}
     # receives with a zero timeout ("what is there, without waiting"): nothing is lost behind a TimeoutError
     S["receive-with-zero-timeout"] = {"alice": [("open", "s", "bob", 0, False), ("send", "s", "a1"), ("send", "s", "a2"), ("send", "s", "a3")],
                                       "bob": [("open", "s", "alice", 0, False), ("recv_t0", "s"), ("pause", 2), ("recv_t0", "s"), ("recv_t0", "s"),
@@ -162,14 +166,20 @@ class Endpoint:
             if k == "vsleep":
                 s.vsleep(op[1])       # the host does something else for a while (virtual time passes)
                 continue
-            if k == "open":
+            if k in ("open", "open_log"):
                 _, sn, remote, sid, cb = op
                 if sn in self.socks:
                     continue
                 s.record(("call", me, "open", sn, remote, sid, cb))
                 try:
                     cls = _callback_class(s, me, sn, active=(cb == 2)) if cb else ThreadSocket
-                    sock = cls(me, remote, socket_id=sid, timeout=TIMEOUT, use_callbacks=cb) if not cb else cls(me, remote, socket_id=sid, timeout=TIMEOUT)
+                    kw = {}
+                    if k == "open_log":
+                        # a socket that logs its classical communication (entries are kept in memory; nothing is written unless the
+                        # application saves its loggers)
+                        from netqasm.sdk.config import LogConfig
+                        kw["log_config"] = LogConfig(comm_log_dir="/nonexistent/vf-comm-log")
+                    sock = cls(me, remote, socket_id=sid, timeout=TIMEOUT, use_callbacks=cb, **kw) if not cb else cls(me, remote, socket_id=sid, timeout=TIMEOUT, **kw)
                     self.socks[sn] = sock
                     self.shared[(me, sn)] = sock
                     self.keep.append(sock)
@@ -275,7 +285,9 @@ class Endpoint:
                         m = sock.recv_structured(block=True, timeout=TIMEOUT)
                         msg = m.payload if hasattr(m, "payload") else _payload_of(m)
                     else:
-                        msg = sock.recv(block=False)
+                        # (every other time with a timeout given as well: a non-blocking receive does not wait whatever else is passed)
+                        self.nb_calls = getattr(self, "nb_calls", 0) + 1
+                        msg = sock.recv(block=False, timeout=5.0) if self.nb_calls % 2 == 0 else sock.recv(block=False)
                     s.record(("ret", me, k, sock.remote_app_name, sid, msg, s.sleep_calls.get(me, 0) - t0))
                 except BaseException as e:
                     if isinstance(e, (vs.SchedBound, vs.SchedDeadlock)):
@@ -375,7 +387,7 @@ def judge(script, s: vs.Scheduler):
         # (a key that an endpoint opens more than once: a socket of the second round may get connected to the peer's socket of the
         # first round that is still open; the peer's second socket then comes and goes without a remote socket noticing it, and
         # its rendezvous mark says exactly that - only the list of open sockets must be empty then)
-        keys = [(name, op[2], op[3]) for name, ops in script.items() for op in ops if op[0] in ("open", "open_t")]
+        keys = [(name, op[2], op[3]) for name, ops in script.items() for op in ops if op[0] in ("open", "open_t", "open_log")]
         once = len(set(keys)) == len(keys)
         if left[0] or (left[1] and once):
             return (f"every socket was opened and closed again by its endpoint, yet the hub still lists open sockets {left[0]} and "
@@ -542,14 +554,14 @@ def judge(script, s: vs.Scheduler):
 
 def _sock_id(script, ep, sn):
     for op in script[ep]:
-        if op[0] == "open" and op[1] == sn:
+        if op[0] in ("open", "open_log") and op[1] == sn:
             return op[3]
     return None
 
 
 def _sock_remote(script, ep, sn):
     for op in script[ep]:
-        if op[0] == "open" and op[1] == sn:
+        if op[0] in ("open", "open_log") and op[1] == sn:
             return op[2]
     return None
 
